@@ -55,9 +55,13 @@ class JobExecutor(ABC):
         self._result_reg_mapping[remote_ref] = registration
 
     def join(self):
-        """Wait for all enqueued jobs to complete and be processed."""
-        while self._unfinished_jobs:
-            finished_jobs, self._unfinished_jobs = ray.wait(self._unfinished_jobs)
-            result = ray.get(finished_jobs[0])
-            self._result_reg_mapping[finished_jobs[0]].processResults(result)
-            del self._result_reg_mapping[finished_jobs[0]]
+        """Wait for all enqueued jobs to complete and process their results.
+
+        Results are processed in the order the jobs were enqueued, not in the order the workers
+        happen to finish them, so that the outcome of a batch (e.g. which tasking a sensor's
+        pointing state reflects, or the order of stacked observations) is deterministic.
+        """
+        jobs, self._unfinished_jobs = self._unfinished_jobs, []
+        for job, result in zip(jobs, ray.get(jobs)):
+            self._result_reg_mapping[job].processResults(result)
+            del self._result_reg_mapping[job]
